@@ -66,6 +66,23 @@ class DUT(Module):
             self.s = axi_lite.AXILiteInterface(data_width=mw, address_width=ADRW)
             self.submodules.dut = Wishbone2AXILite(self.m, self.s, base_address=p.get("base", 0))
             self.mkind, self.skind = "wb", "axil"
+        elif kind == "adapter":
+            # the chain SoCBusHandler.add_adapter really builds (data width, addressing and standard conversion)
+            from litex.soc.integration.soc import SoCBusHandler
+            def iface(t, dw):
+                if t == "wb":
+                    return wishbone.Interface(data_width=dw, address_width=32, addressing="word")
+                return axi_lite.AXILiteInterface(data_width=dw, address_width=32)
+            std = {"wb": "wishbone", "axil": "axi-lite"}[p["bus"]]
+            self.submodules.bus = bus = SoCBusHandler(standard=std, data_width=p["bdw"], address_width=32)
+            if p["direction"] == "m2s":
+                self.m = iface(p["itf"], p["idw"])
+                self.s = bus.add_adapter("m", self.m, "m2s")
+                self.mkind, self.skind = p["itf"], p["bus"]
+            else:
+                self.s = iface(p["itf"], p["idw"])
+                self.m = bus.add_adapter("s", self.s, "s2m")
+                self.mkind, self.skind = p["bus"], p["itf"]
         elif kind == "ahb2wb":
             from litex.soc.interconnect import ahb
             self.m = ahb.AHBInterface(data_width=mw, address_width=ADRW)
@@ -663,6 +680,19 @@ reg("Wishbone2AXILite(32bit,base=0x20)", "quick", kind="wb2axil", mw=32, nbytes=
 reg("Wishbone2AXILite(64bit,base=0x10)+wide_base", "quick", kind="wb2axil", mw=64, nbytes=16, strbs=(0xFF, 0x02), marks=(1,), base=0x10)
 reg("Wishbone2AXILite(64bit)", "quick", kind="wb2axil", mw=64, nbytes=16, strbs=(0xFF, 0x02, 0x80), marks=(1,))
 reg("AXILite2Wishbone(64bit,base=0x10)", "quick", kind="axil2wb", mw=64, nbytes=16, strbs=(0xFF, 0x02), marks=(1,), base=0x10)
+for (itf, idw, bus, bdw, direction, tier) in [
+        ("wb", 32, "wb", 64, "m2s", "quick"), ("wb", 64, "wb", 32, "m2s", "quick"), ("wb", 32, "axil", 32, "m2s", "quick"),
+        ("wb", 32, "axil", 64, "m2s", "quick"), ("axil", 32, "wb", 32, "m2s", "quick"), ("axil", 64, "wb", 32, "m2s", "quick"),
+        ("axil", 32, "axil", 64, "m2s", "quick"), ("axil", 64, "axil", 32, "m2s", "thorough"), ("wb", 64, "axil", 32, "m2s", "thorough"),
+        ("wb", 32, "wb", 64, "s2m", "quick"), ("wb", 32, "axil", 64, "s2m", "quick"), ("axil", 32, "axil", 64, "s2m", "quick"),
+        ("axil", 32, "wb", 64, "s2m", "thorough"), ("axil", 64, "wb", 32, "s2m", "thorough"), ("wb", 64, "axil", 32, "s2m", "thorough")]:
+    mwid, swid = (idw, bdw) if direction == "m2s" else (bdw, idw)
+    nl_ = mwid//8
+    strbs_ = (0, 1, (1 << nl_) - 1, 1 << (nl_ - 1), 0b0110) if nl_ >= 4 else tuple(range(1 << nl_))
+    if nl_ == 8 and tier == "quick":
+        strbs_ = (0x0F, 0xF0, 0xFF, 0x10)
+    reg(f"add_adapter({itf}{idw}->{bus}{bdw} bus,{direction})", tier, kind="adapter", itf=itf, idw=idw, bus=bus, bdw=bdw, direction=direction,
+        mw=mwid, sw=swid, nbytes=16, marks=(1,), strbs=strbs_, w_late=False)
 reg("AHB2Wishbone(32bit)", "quick", kind="ahb2wb", mw=32, nbytes=8, marks=(1,))
 reg("AHB2Wishbone(32bit),2marks,lat2", "thorough", kind="ahb2wb", mw=32, nbytes=8, marks=(1, 2), maxlat=2)
 reg("AHB2Wishbone(64bit)", "thorough", kind="ahb2wb", mw=64, nbytes=16, marks=(1,), words=(0, 1))
